@@ -95,14 +95,21 @@ func compare(a, b any) int {
 	case int:
 		return a - b.(int)
 	case string:
+		if a == b.(string) {
+			return 0
+		}
+		rawA, rawB := a, b.(string)
 		a = strings.ToLower(a)
 		b := strings.ToLower(b.(string))
 		if a == b {
-			return 0
+			return strings.Compare(rawA, rawB) // same letters, different case: not identical
 		}
 		for i := 0; i < len(a) && i < len(b); i++ {
 			if a[i] != b[i] {
-				return stringWeights[a[i]] - stringWeights[b[i]]
+				if w := stringWeights[a[i]] - stringWeights[b[i]]; w != 0 {
+					return w
+				}
+				return int(a[i]) - int(b[i]) // bytes outside the alphabet still differ
 			}
 		}
 		return len(a) - len(b)
